@@ -13,7 +13,7 @@ pub struct C02 {
 
 impl C02 {
     pub fn new(tier: Tier) -> C02 {
-        let sets = hl_sets(&Bounds { t: tier.pick(5, 6), q: tier.pick(3, 4), words: tier.pick(2, 3), corpus: true, pairs: true, fams: vec![1, 2, 3, 4, 5, 7] });
+        let sets = hl_sets(&Bounds { t: tier.pick(5, 6), q: tier.pick(3, 4), words: tier.pick(2, 3), corpus: true, pairs: true, fams: vec![1, 2, 3, 4, 5, 7, 9] });
         let inv = LANGS.iter().map(|l| frozen_inventory(*l)).collect();
         C02 { sets, inv }
     }
@@ -27,6 +27,8 @@ fn marker_menu(l: L) -> Vec<(String, String)> {
         ("{{".into(), "}}".into()),
         (s.v.to_string(), s.c.to_string()),
         ("|".into(), "|".into()),
+        // markers that contain a control character (ANSI bold on / off)
+        ("\u{1b}[1m".into(), "\u{1b}[0m".into()),
     ]
 }
 
@@ -123,7 +125,7 @@ impl Prop for C02 {
         }
     }
     fn rule(&self) -> String {
-        "sweep: every title of each domain as a one-record store and as a two-record store (ids 10, 20) x every query of the domain, searched with sentinel markers U+E000/U+E001; the one-record store is searched again under five other marker pairs (empty, brackets, two-character, letters occurring in titles, identical left/right). Non-trivial = a search returning a highlighted title whose stored form contains NUL, a non-ASCII character or a composable sequence.".into()
+        "sweep: every title of each domain as a one-record store and as a two-record store (ids 10, 20) x every query of the domain, searched with sentinel markers U+E000/U+E001; the one-record store is searched again under six other marker pairs (empty, brackets, two-character, letters occurring in titles, identical left/right, ANSI escape sequences). Non-trivial = a search returning a highlighted title whose stored form contains NUL, a non-ASCII character or a composable sequence.".into()
     }
     fn assumptions(&self) -> Vec<String> {
         vec![
